@@ -13,6 +13,15 @@ Fixpoint next_cat (n : nat) (sep : bytes) (acc : bytes) : M bytes :=
   | S n' => p_next ;;; c <- conc ;; next_cat n' sep (acc ++ sep ++ c)
   end.
 
+(* ...[]* *)
+Fixpoint suffix_loop (g : nat) (body : bytes) : M bytes :=
+  match g with
+  | O => nofuel
+  | S g' =>
+    b <- p_next ;; k <- p_kind ;;
+    if b && N.eqb k kOpenSq then p_next ;;; suffix_loop g' (body ++ [91%N; 93%N]) else p_unnext ;;; ret body
+  end.
+
 Fixpoint format_type (g : nat) : M bytes :=
   match g with
   | O => nofuel
@@ -28,12 +37,22 @@ Fixpoint format_type (g : nat) : M bytes :=
                p_next ;;; v <- format_type g' ;;
                p_next ;;; c2 <- conc ;; ret (concrete t ++ c1 ++ v ++ c2)
              else ret []) ;;
-    p_next ;;; k <- p_kind ;;
-    if N.eqb k kOpenSq then p_next ;;; ret (body ++ [91%N; 93%N]) else p_unnext ;;; ret body
+    suffix_loop g' body
   end.
 
 Definition deprecated_line (prefix : bytes) (t : token) : M bytes :=
   b <- next_cat 5 [] (prefix ++ concrete t) ;; ret (b ++ nlb).
+
+(* <ID> = <tokens up to the semicolon>; one space between tokens, none after '(' or before ')' *)
+Fixpoint member_loop (g : nat) (acc : bytes) (after_open : bool) : M bytes :=
+  match g with
+  | O => nofuel
+  | S g' =>
+    b <- p_next ;; if negb b then ret acc else
+    k <- p_kind ;; if N.eqb k kSemi then ret acc else
+    c <- conc ;;
+    member_loop g' (acc ++ (if negb after_open && negb (N.eqb k kClosePar) then sp else []) ++ c) (N.eqb k kOpenPar)
+  end.
 
 Fixpoint format_enum_loop (g : nat) (acc : bytes) : M bytes :=
   match g with
@@ -45,12 +64,14 @@ Fixpoint format_enum_loop (g : nat) (acc : bytes) : M bytes :=
     else if N.eqb k kBlockC then format_enum_loop g' (acc ++ tab ++ concrete t ++ nlb)
     else if N.eqb k kOpenSq then d <- deprecated_line tab t ;; format_enum_loop g' (acc ++ d)
     else if N.eqb k kIdent then
-      o <- next_cat 2 sp (tab ++ concrete t) ;; p_next ;;; format_enum_loop g' (acc ++ o ++ [59%N; 10%N])
+      o <- member_loop g' (tab ++ concrete t) false ;; format_enum_loop g' (acc ++ o ++ [59%N; 10%N])
     else if N.eqb k kCloseCu then ret (acc ++ concrete t ++ nlb)
     else format_enum_loop g' acc
   end.
 Definition format_enum (g : nat) : M bytes :=
-  c <- conc ;; h <- next_cat 2 sp c ;; format_enum_loop g (h ++ nlb).
+  c <- conc ;; h <- next_cat 2 sp c ;;
+  k <- p_kind ;; h' <- (if N.eqb k kColon then next_cat 2 sp h else ret h) ;;     (* enum <ID> [: <TYPE>] { *)
+  format_enum_loop g (h' ++ nlb).
 
 Definition format_const : M bytes :=
   c <- conc ;; h <- next_cat 4 sp c ;; p_next ;;; ret (h ++ [59%N]).
@@ -133,10 +154,12 @@ Fixpoint format_loop (g : nat) (out : bytes) (readonly nlnext : bool) : M bytes 
     t <- p_tok ;; let k := kind t in
     let pre := if nlnext then out ++ nlb else out in
     if N.eqb k kOpenSq then
-      o <- next_cat 5 [] (concrete t) ;; format_loop g' (pre ++ o ++ nlb) false false
+      p_next ;;; c1 <- conc ;; k1 <- p_kind ;;                                       (* [opcode(..)] : 5 tokens, [flags] : 2 *)
+      o <- next_cat (if N.eqb k1 21%N then 1 else 4) [] (concrete t ++ c1) ;; format_loop g' (pre ++ o ++ nlb) false false
     else if N.eqb k kLineC then format_loop g' (out ++ concrete t) false false
     else if N.eqb k kBlockC then format_loop g' (out ++ concrete t ++ nlb) false false
     else if N.eqb k 5%N then format_loop g' out true nlnext
+    else if N.eqb k 20%N then p_next ;;; c <- conc ;; format_loop g' (out ++ concrete t ++ sp ++ c ++ nlb) false true
     else if N.eqb k 8%N then e <- format_enum g' ;; format_loop g' (pre ++ e) false true
     else if N.eqb k 14%N then c <- format_const ;; format_loop g' (pre ++ c) false true
     else if N.eqb k 6%N then s <- format_struct g' readonly tab ;; format_loop g' (pre ++ s) false true
